@@ -34,6 +34,8 @@ ASSUMPTIONS = [
     "a global negative response applies to a service only if the request bytes it echoes exist in that request",
     "the value reported for a MATCHING-REQUEST-PARAM may be the bytes or their big/little endian integer",
     "service_groups is only judged for services whose first request byte is completely constant",
+    "own-encoding clause: a request/response encoded by odxtools itself is only judged when its bytes differ from the reference encoding (identical bytes are covered by the decode clause); a rejected encoding is not judged here (C04)",
+    "BYTE-POSITION is omitted only where the ODX cursor rule (byte after the previously listed parameter) gives the same position; BIT-POSITION of a value crossing a byte boundary counts from the least significant bit of its last byte (high-low order)",
     "the reference encoder/dispatcher (vlib/models/dispatch.py) is a second reading of ODX by the author of the check",
 ]
 MUST_HIT = ["prefix:empty", "prefix:equal", "prefix:nested", "cc:16hl", "cc:16lh", "cc:subbyte",
